@@ -53,7 +53,10 @@ def gen_case(rng, tier):
             ops.append({"op": "fail_neighbour", "kind": rng.choice(["jit_unseeded", "vmap_site", "collision"])})
     ops += [{"op": "probe", "seeded": False}, {"op": "probe", "seeded": True}]
     return {"chain": chain, "site": rng.choice(["sample", "sample", "call", "gen"]), "ops": ops,
-            "key": rng.randint(0, 2**30), "x": round(rng.uniform(0.1, 1.0), 3)}
+            "key": rng.randint(0, 2**30), "x": round(rng.uniform(0.1, 1.0), 3),
+            # probe one persistent function object through the whole history (seeded, then unseeded, ...) instead of
+            # rebuilding the placement for every probe
+            "persist": rng.random() < 0.35}
 
 
 def build(case):
@@ -78,16 +81,23 @@ def build(case):
 def wrap(w, g):
     if w == "jit":
         return jax.jit(lambda x: g(x))
+    # loop bodies and branches are function objects of their own (as in user code that defines a step function
+    # once): JAX caches their traced jaxprs per function object
     if w == "scan":
-        return lambda x: jax.lax.scan(lambda c, _: (g(c) * 0.5, None), x, None, length=2)[0]
+        body = lambda c, _: (g(c) * 0.5, None)
+        return lambda x: jax.lax.scan(body, x, None, length=2)[0]
     if w == "while":
-        return lambda x: jax.lax.while_loop(lambda s: s[0] < 2, lambda s: (s[0] + 1, g(s[1]) * 0.5), (0, x))[1]
+        cond_f, body = (lambda s: s[0] < 2), (lambda s: (s[0] + 1, g(s[1]) * 0.5))
+        return lambda x: jax.lax.while_loop(cond_f, body, (0, x))[1]
     if w == "fori":
-        return lambda x: jax.lax.fori_loop(0, 2, lambda i, c: g(c) * 0.5, x)
+        body = lambda i, c: g(c) * 0.5
+        return lambda x: jax.lax.fori_loop(0, 2, body, x)
     if w == "cond":
-        return lambda x: jax.lax.cond(x > -100.0, lambda y: g(y), lambda y: y * 2.0, x)
+        t_f, f_f = (lambda y: g(y)), (lambda y: y * 2.0)
+        return lambda x: jax.lax.cond(x > -100.0, t_f, f_f, x)
     if w == "switch":
-        return lambda x: jax.lax.switch(1, [lambda y: y * 2.0, lambda y: g(y)], x)
+        branches = [lambda y: y * 2.0, lambda y: g(y)]
+        return lambda x: jax.lax.switch(1, branches, x)
     if w == "grad":
         return lambda x: jax.grad(lambda y: g(y) * y)(x)
     if w == "vmap":
@@ -170,6 +180,10 @@ def run_case(case):
     x = jnp.float32(case["x"])
     hist = []
     steps = 0
+    f_persist = build(case) if case.get("persist") else None
+    if f_persist is not None:
+        probes["persistent_object"] = 1
+    mk = (lambda: f_persist) if f_persist is not None else (lambda: build(case))
     for op in case["ops"]:
         steps += 1
         k = op["op"]
@@ -206,7 +220,7 @@ def run_case(case):
                 faults["usererr"] = faults.get("usererr", 0) + 1
         elif not op["seeded"]:
             probes["unseeded_probe"] += 1
-            f = build(case)
+            f = mk()
             try:
                 r = f(x)
                 jax.block_until_ready(r)
@@ -237,7 +251,7 @@ def run_case(case):
             probes["seeded_probe"] += 1
             key = jax.random.key(case["key"])
             try:
-                r1 = gpjax.seed(build(case))(key, x)
+                r1 = gpjax.seed(mk())(key, x)
                 jax.block_until_ready(r1)
             except Exception as e:
                 c = classify(e)
@@ -255,21 +269,21 @@ def run_case(case):
             # (b) the same key again, after jumping the logical clock and losing every cache
             world.fault_ctr(world.counter() + 977)
             world.fault_flush()
-            r2 = gpjax.seed(build(case))(key, x)
+            r2 = gpjax.seed(mk())(key, x)
             if not world.bit_equal(r1, r2):
                 viol.append(V("hidden_randomness", "seeded_result_is_function_of_key",
                               f"seed(f)(key) under {'/'.join(chain)} gave {world.to_py(r1)} then {world.to_py(r2)} for the same key "
                               "after a logical-clock jump and a cache flush: the site does not draw from the key", **sig))
                 break
             # (a) another key changes the result
-            r3 = gpjax.seed(build(case))(jax.random.key(case["key"] + 1), x)
+            r3 = gpjax.seed(mk())(jax.random.key(case["key"] + 1), x)
             if world.bit_equal(r1, r3) and not has_vmap_unb and float(jnp.sum(jnp.abs(jnp.asarray(r1, dtype=jnp.float32)))) != 0.0:
                 viol.append(V("hidden_randomness", "seeded_result_changes_with_key",
                               f"seed(f) under {'/'.join(chain)} returned {world.to_py(r1)} for two different keys", **sig))
                 break
             # (c) jit(seed(f)) compiles and agrees
             try:
-                r4 = jax.jit(gpjax.seed(build(case)))(key, x)
+                r4 = jax.jit(gpjax.seed(mk()))(key, x)
                 if not world.tree_close(r1, r4)[0]:
                     viol.append(V("transform_instability", "jit_of_seed_agrees", f"eager {world.to_py(r1)} vs jit {world.to_py(r4)}", **sig))
                     break
@@ -288,6 +302,10 @@ def run_case(case):
 
 
 def shrink(case):
+    if case.get("persist"):
+        c = copy.deepcopy(case)
+        c["persist"] = False
+        yield c
     for i in range(len(case["ops"])):
         if len(case["ops"]) > 1:
             c = copy.deepcopy(case)
